@@ -21,11 +21,23 @@ OPTS = [None, None, {"relativize": False}, {"fit_to_screen": False}, {"video_wid
 
 
 def pristine(jobs, hashseed):
+    """every job in a sub-process under the given hash seed.  The jobs are run there in another order than here (seed 0:
+    reversed, seed 1: same order, otherwise: shuffled), so that anything kept at class or module level between calls shows
+    up as a difference"""
+    import random
+    order = list(range(len(jobs)))
+    if hashseed == 0:
+        order.reverse()
+    elif hashseed != 1:
+        random.Random(hashseed).shuffle(order)
     env = dict(os.environ, PYTHONHASHSEED=str(hashseed), PYTHONPATH=os.path.join(core.VERIF, "harness"))
-    p = subprocess.run([sys.executable, "-m", "pcv.setbuild"], input=json.dumps(jobs), capture_output=True, text=True, env=env, timeout=1200)
+    p = subprocess.run([sys.executable, "-m", "pcv.setbuild"], input=json.dumps([jobs[i] for i in order]), capture_output=True, text=True, env=env, timeout=1200)
     if p.returncode != 0:
         raise RuntimeError("pristine sub-process failed: " + p.stderr[-2000:])
-    return [tuple(x) for x in json.loads(p.stdout)]
+    res = [None] * len(jobs)
+    for i, x in zip(order, json.loads(p.stdout)):
+        res[i] = tuple(x)
+    return res
 
 
 def explore(chk):
@@ -44,6 +56,9 @@ def explore(chk):
             elif r < 0.55:
                 # several classes on one element whose rules disagree: the merge order must not depend on the hash seed
                 d["styles"] = {"emphasis": {"italics": True, "bold": True}, "upright": {"italics": False}, "under": {"underline": True, "bold": False}}
+                if rng.random() < 0.5:
+                    # the same class names mean something else in this set
+                    d["styles"] = {k: {a: rng.random() < 0.5 for a in rng.sample(["italics", "bold", "underline"], rng.randint(1, 3))} for k in d["styles"]}
                 for L in d["langs"]:
                     for c in L["caps"]:
                         if rng.random() < 0.6:
@@ -53,8 +68,43 @@ def explore(chk):
                                 n[2] = {"classes": ["emphasis", "upright"]}
         nshared = rng.randint(1, 2)
         shared = [(rng.choice(setbuild.WRITERS), rng.choice(OPTS)) for _ in range(nshared)]
+        if h % 4 == 3:
+            # one writer object, first a set positioned at one level only (language / set / caption), then a set without
+            # any positioning, then the first again: whatever the writer remembers of a document shows in the next one
+            lay = setbuild.rand_layout(rng, False)
+            j = h // 4
+            level = ["lang", "set", "caption"][(j // len(setbuild.WRITERS)) % 3]
+            a = setbuild.rand_desc(rng, nlang=rng.choice([1, 2]), unbalanced=0.0, absolute=0.0, with_layout=0.0)
+            bare = setbuild.rand_desc(rng, nlang=rng.choice([1, 2]), unbalanced=0.0, absolute=0.0, with_layout=0.0)
+            if level == "lang":
+                a["langs"][0]["layout"] = lay
+            elif level == "set":
+                a["layout"] = lay
+            else:
+                a["langs"][0]["caps"][0]["layout"] = lay
+            sets = [a, bare]
+            shared = [(setbuild.WRITERS[j % len(setbuild.WRITERS)], rng.choice(OPTS))]
+            ops_fixed = [("shared", 0, shared[0][0], shared[0][1], si) for si in (0, 1, 0, 1)]
+        elif h % 4 == 1:
+            # two sets whose spans take their style from classes of the same names, defined differently in each set; one
+            # writer kind writes both (what is resolved for one document must not be reused for the next)
+            j = h // 4
+            kind = setbuild.WRITERS[j % len(setbuild.WRITERS)]
+            sets = []
+            for _ in range(2):
+                d = setbuild.rand_desc(rng, nlang=1, unbalanced=0.0, absolute=0.0, with_layout=0.0)
+                d["styles"] = {k: {a: rng.random() < 0.6 for a in rng.sample(["italics", "bold", "underline"], rng.randint(1, 3))} for k in ("emphasis", "upright", "under")}
+                for c in d["langs"][0]["caps"]:
+                    c["nodes"] = [["S", True, {"classes": rng.sample(["emphasis", "upright", "under"], rng.randint(1, 2))}]] + \
+                                 [n for n in c["nodes"] if n[0] != "S"] + [["S", False, {"classes": ["emphasis"]}]]
+                    c["nodes"][-1][2] = dict(c["nodes"][0][2])
+                sets.append(d)
+            shared = [(kind, None)]
+            ops_fixed = [("fresh", None, kind, None, 0), ("fresh", None, kind, None, 1), ("shared", 0, kind, None, 0), ("shared", 0, kind, None, 1)]
+        else:
+            ops_fixed = None
         ops = []
-        for _ in range(rng.randint(2, 8)):
+        for _ in range(rng.randint(2, 8) if ops_fixed is None else 0):
             si = rng.randrange(len(sets))
             if rng.random() < 0.65:
                 wi = rng.randrange(nshared); kind, opts = shared[wi]; ops.append(("shared", wi, kind, opts, si))
@@ -62,6 +112,8 @@ def explore(chk):
                 kind, opts = rng.choice(setbuild.WRITERS), rng.choice(OPTS); ops.append(("fresh", None, kind, opts, si))
         if any(k in ("dfxp", "single") for (_, _, k, _, _) in ops) and rng.random() < 0.3:
             pass
+        if ops_fixed is not None:
+            ops = ops_fixed
         histories.append((sets, shared, ops))
         for (_, _, kind, opts, si) in ops:
             o = dict(opts or {})
